@@ -3,6 +3,6 @@
 S=$1; shift
 for ID in "$@"; do
   out=$(/verif/tools/check_tree.sh /tmp/seed/$S "$ID" --tier ${TIER:-quick} 2>&1); rc=$?
-  echo "seed=$S check=$ID rc=$rc viol=$(echo "$out" | grep -c '^VIOLATION') :: $(echo "$out" | grep -m1 'sig=' | cut -c1-220)"
+  echo "seed=$S check=$ID rc=$rc viol=$(echo "$out" | grep -c '^VIOLATION') :: $(echo "$out" | grep -v '^KNOWN-FINDING' | grep -m1 'sig=' | cut -c1-220)"
   [ $rc -eq 2 ] && echo "$out" | tail -8
 done
